@@ -237,6 +237,15 @@ class Escape:
                     self.sources.append(src)
                     for c in classes:
                         items.append((s.node, c, src))
+            # T1b: %-formatting whose *format string* contains interpolated data (f-string % args)
+            for n in f.walk():
+                if isinstance(n, ast.BinOp) and isinstance(n.op, ast.Mod) and isinstance(n.left, ast.JoinedStr) and \
+                        any(isinstance(v, ast.FormattedValue) for v in n.left.values):
+                    classes = ['ValueError', 'TypeError']
+                    src = Source(f, n, classes, f'dynamic format string {norm(n.left)[:40]} % ...', 'T1')
+                    self.sources.append(src)
+                    for c in classes:
+                        items.append((n, c, src))
             # T2: declared raises of the function itself (abstract / documented contract)
             if f.qn in self.declared:
                 src = Source(f, f.node, list(self.declared[f.qn]), 'declared contract', 'T2')
